@@ -277,7 +277,8 @@ def configs(tier: str):
                 continue
             ops = OPS if (tier == 'thorough' or len(amap) <= 1) else ['attr_write', 'label_write', 'slice_read', 'evaluate', 'ctor_kw', 'attr_read']
             for op in ops:
-                out.append(cfg18(amap=amap, op=op, alias=alias, n=2 if op in ('slice_write', 'slice_read') and tier == 'quick' else 3))
+                for n in ((2 if op in ('slice_write', 'slice_read') else 3,) if tier == 'quick' else (1, 3, 4)):
+                    out.append(cfg18(amap=amap, op=op, alias=alias, n=n))
     return out
 
 
@@ -300,7 +301,7 @@ def main() -> int:
         functions=['fsic.extensions.common.AliasMixin.__init__', '_resolve_alias', '__getattr__', '__setattr__', '__getitem__', '__setitem__',
                    'VectorContainer label access underneath'],
         bounds={'alias_maps': f"all acyclic maps of up to {2 if tier == 'quick' else 3} alias names onto 3 variables / other aliases (many-to-one, chains, self-maps)",
-                'span_length': '2..3 with symbolic integer labels', 'operands': 'value(s): any Float64; position: symbolic -n-1..n; labels / slice bounds: any integer',
+                'span_length': '2..3 (thorough 1, 3, 4) with symbolic integer labels', 'operands': 'value(s): any Float64; position: symbolic -n-1..n; labels / slice bounds: any integer',
                 'operations': OPS},
         outside=['to_dataframe(use_aliases=...) and PREFERRED_NAMES (pandas): the whole last sentence of the property', 'cyclic alias maps',
                  'operation sequences longer than one step (each operation starts from an arbitrary symbolic state, so a step result composes)'],
